@@ -204,13 +204,16 @@ Inductive eres := EAcquired (v : N) | ENotAcquired | EBadInfo.   (* EBadInfo: kl
 
 (* one tryAcquireOrRenew + OnStartedLeading. t1/t2: environment clock at the Get and after the write.
    client-go's lease-time test is outside: the driver only elects when the elector would try. *)
-Definition elect (e : engine) (w : world) (p : proc) (h bc bu : bytes) (t1 t2 : N) : world * proc * eres * res * res :=
+(* tf: the timestamp oracle fails on the read that follows the lock write (the write itself commits) *)
+Definition tenv_of (tf : bool) (n : N) : tenv := if tf then TErr else TOk n.
+
+Definition elect_f (e : engine) (w : world) (p : proc) (h bc bu : bytes) (t1 t2 : N) (tf : bool) : world * proc * eres * res * res :=
   let g := do_get (w_lock w) (p_lock p) GOk (TOk (clock e w t1)) in
   match o_res g with
   | RNotFound =>
       let applied := match w_lock w with None => true | Some _ => false end in
       let w1 := bump w applied in
-      let c := do_create (w_lock w) (o_cand g) h bc COk (TOk (clock e w1 t2)) in
+      let c := do_create (w_lock w) (o_cand g) h bc COk (tenv_of tf (clock e w1 t2)) in
       let w2 := mkW (o_store c) (w_data w1) (w_commits w1) in
       match o_res c with
       | ROk => match leader_version (o_cand c) with
@@ -222,7 +225,7 @@ Definition elect (e : engine) (w : world) (p : proc) (h bc bu : bytes) (t1 t2 : 
   | ROk =>
       let applied := cas_holds (w_lock w) (lastVal (o_cand g)) && negb (tso (o_cand g) =? 0) in
       let w1 := bump w applied in
-      let u := do_update (w_lock w) (o_cand g) h bu COk (TOk (clock e w1 t2)) in
+      let u := do_update (w_lock w) (o_cand g) h bu COk (tenv_of tf (clock e w1 t2)) in
       let w2 := mkW (o_store u) (w_data w1) (w_commits w1) in
       match o_res u with
       | ROk => match leader_version (o_cand u) with
@@ -234,12 +237,16 @@ Definition elect (e : engine) (w : world) (p : proc) (h bc bu : bytes) (t1 t2 : 
   | r => (w, mkP (o_cand g) (p_lead p), ENotAcquired, r, r)
   end.
 
+Definition elect (e : engine) (w : world) (p : proc) (h bc bu : bytes) (t1 t2 : N) :=
+  elect_f e w p h bc bu t1 t2 false.
+
 (* a request served by a process: allocates deal+1, then the sequencer commits it *)
 Definition serve (w : world) (p : proc) (o : hop) : world * proc * hres :=
   let out := do_op (w_data w) (deal (p_lead p)) o in
   let rev := deal (p_lead p) + 1 in
   (bump (mkW (w_lock w) (d_store out) (w_commits w)) (d_commit out),
-   mkP (p_lock p) (mkL rev rev), d_res out).
+   (* the sequencer commits slot committed+1: it follows only if nothing else has been dealt in between *)
+   mkP (p_lock p) (mkL rev (if deal (p_lead p) =? committed (p_lead p) then rev else committed (p_lead p))), d_res out).
 
 Fixpoint serve_all (w : world) (p : proc) (os : list hop) : world * proc * list hres :=
   match os with
